@@ -145,6 +145,7 @@ CbValue(type, text, cn) ==
 
 (* canonical numerals (what the printer writes) convert to themselves *)
 CanonInts == {ToString(n) : n \in 0..120} \cup {"-" \o ToString(n) : n \in 1..20} \cup {"1000", "7777"}
+             \cup {"-9223372036854775808", "9223372036854775807"}      \* the ends of the range of long
 F6Map == [v \in {"0","1","2","3","5","7","8","10","16","100","-4","1.5","2.25","-0.5","7777.5"} |->
             CASE v = "1.5" -> "1.500000" [] v = "2.25" -> "2.250000" [] v = "-0.5" -> "-0.500000"
               [] v = "7777.5" -> "7777.500000" [] OTHER -> v \o ".000000"]
